@@ -36,6 +36,9 @@ Norm(d) ==
     [] d[1] = "ptrstruct" -> <<"other", "ptrstruct">>
     [] d[1] = "slice" -> Arr([i \in 1..Len(d[2]) |-> Norm(d[2][i])])
     \* the elements of a typed Go slice stay raw Go values until something converts them: <<"goint", n>>
+    \* two Go struct types with the same printed name and different layouts
+    [] d[1] = "rowA" -> <<"struct", [Name |-> Str(<<98,111,108,116>>), Qty |-> NumOf(DInt(7))], <<>>>>
+    [] d[1] = "rowB" -> <<"struct", [Qty |-> NumOf(DInt(40)), Code |-> Str(<<65,51>>), Name |-> Str(<<110,117,116>>)], <<>>>>
     [] d[1] = "tmapstr" -> <<"map", [k \in DOMAIN d[2] |-> Str(d[2][k])], "map[string]string">>
     [] d[1] = "ints" -> <<"arr", [i \in 1..Len(d[2]) |-> <<"goint", d[2][i]>>], "[]int">>
     [] d[1] = "strs" -> <<"arr", [i \in 1..Len(d[2]) |-> Str(d[2][i])], "strs">>
